@@ -822,6 +822,9 @@ impl Memory {
     }
 
     fn allocate_internal(&mut self, content: MetaValue) -> *mut CellContent {
+        #[cfg(picilisp_verif)]
+        self.verif_before_allocate();
+
         if self.first_free > self.cells.len() - 1 {
             self.collect();
         }
@@ -869,6 +872,9 @@ impl Memory {
     }
 
     fn collect(&mut self) {
+        #[cfg(picilisp_verif)]
+        let verif_before = self.verif_pre_collect();
+
         // find cells that are externally reachable (the roots)
         let mut stack = vec![];
 
@@ -967,6 +973,9 @@ impl Memory {
             self.cells.truncate(used_count + min_free_cells + 1);
             self.first_free = used_count;
         }
+
+        #[cfg(picilisp_verif)]
+        self.verif_post_collect(verif_before);
     }
 
     pub fn used_count(&self) -> usize {
@@ -990,3 +999,6 @@ impl Memory {
 
 #[cfg(test)]
 mod tests;
+
+#[cfg(picilisp_verif)]
+pub mod verif;
